@@ -153,9 +153,13 @@ ACK = {"a": "hs", "pid": "ACK"}
 FACK = {"a": "hs", "pid": "ACK", "if_data": False}      # the host's ACK of another device's data (after a foreign IN token)
 
 
-def classify_setup(s8):
+def classify_setup(s8, skip=(), claimed=()):
     """Python mirror of Usb2Ctl!ClassOf, used only to *steer generation* (never for verdicts)."""
     bm, req = s8[0], s8[1]
+    if 256 * ((bm >> 5) & 3) + req in claimed:
+        return "gray"
+    if (bm >> 5) & 3 == 0 and req in skip:
+        return "unsup"
     val, idx, ln = s8[2] | s8[3] << 8, s8[4] | s8[5] << 8, s8[6] | s8[7] << 8
     d_in, typ, rc = bm >> 7, (bm >> 5) & 3, bm & 31
     if typ != 0 or req not in (0, 1, 5, 6, 8, 9):
@@ -182,8 +186,9 @@ NO_FOREIGN_ACK = [k for k in ALL_NOISE if k != "foreign_in_ack"]
 class Gen:
     """Builds host scripts transaction by transaction, keeping the host's view of the device address."""
 
-    def __init__(self, rng, desc_len, max0=64, bulk=True):
+    def __init__(self, rng, desc_len, max0=64, bulk=True, skip=(), claimed=()):
         self.rng = rng
+        self.skip, self.claimed = tuple(skip), tuple(claimed)
         self.desc_len = desc_len          # {wValue: total length} of the descriptors the device has
         self.max0 = max0
         self.bulk = bulk
@@ -345,7 +350,7 @@ class Gen:
         """A whole control transfer for a supported or unsupported request, as a well-behaved host runs it.
         stop: 'done' (all stages) | 'setup' | 'data' | 'status_noack' (where an abandoning host stops)."""
         r = self.rng
-        cls = classify_setup(s8)
+        cls = classify_setup(s8, self.skip, self.claimed)
         d_in, ln = s8[0] >> 7, s8[6] | s8[7] << 8
 
         def maybe_noise():
@@ -413,10 +418,10 @@ class Gen:
 
 
 # ---- profiles: what each property's random stimuli emphasise ---------------------------------------
-def gen_clean(rng, prop, desc_len, max0, n_transfers):
+def gen_clean(rng, prop, desc_len, max0, n_transfers, skip=(), claimed=()):
     """A host behaviour inside the Env *and* outside every open finding's trigger (as far as a generator that
     does not see the device's answers can tell; TLC decides, see `pattern`)."""
-    g = Gen(rng, desc_len, max0)
+    g = Gen(rng, desc_len, max0, skip=skip, claimed=claimed)
     r = rng
     if r.random() < 0.6:
         g.emit({"a": "src", "en": 1})
@@ -872,12 +877,13 @@ def _desc_len(b):
     return out
 
 
-def trace_cfg(b, max0, unit=False, min_gap=2, max_gap=18):
+def trace_cfg(b, max0, unit=False):
     return tlc.render_cfg(_cfg("Usb2CtlTrace.cfg.tmpl"), {
         "MaxPkt0": max0, "KnownDesc": TlaSet(sorted(b.known_desc)) if b is not None else TlaSet([]),
         "InEps": TlaSet([b.bulk_in_ep] if b is not None and b.bulk_in else []),
         "OutEps": TlaSet([b.bulk_out_ep] if b is not None and b.bulk_out else []),
-        "Unit": unit, "MinGap": min_gap, "MaxGap": max_gap})
+        "Unit": unit,
+        "Skipped": TlaSet(list(b.skip) if b is not None else []), "Claimed": TlaSet(list(b.claimed) if b is not None else [])})
 
 
 def judge(rep, prop, items, cfg, label):
@@ -954,7 +960,7 @@ def model_check(rep, prop):
     rows = MC_ROWS[prop] if quick else ALL_ROWS
     addrs = [0, 5] if quick else [0, 5, 85]
     cfg = tlc.render_cfg(_cfg("MCUsb2Ctl.cfg.tmpl"), {"Clean": False, "View": "RefView", "SetupIdx": TlaSet(rows),
-                                                      "Addrs": TlaSet(addrs)})
+                                                      "Addrs": TlaSet(addrs), "Skipped": TlaSet([]), "Claimed": TlaSet([])})
     with _Phase(rep, "model-check"):
         # small graph + per-expression coverage counters: more than a few workers only contend
         res = tlc.model_check(SPEC_DIR, "MCUsb2Ctl", cfg, workers=2 if quick else 4, timeout=3000,
@@ -965,20 +971,78 @@ def model_check(rep, prop):
     if not quick:
         # the Env restricted to the clean class must still reach every branch except the carved-out ones
         cfg = tlc.render_cfg(_cfg("MCUsb2Ctl.cfg.tmpl"), {"Clean": True, "View": "CoreView", "SetupIdx": TlaSet(ALL_ROWS),
-                                                          "Addrs": TlaSet([0, 5])})
+                                                          "Addrs": TlaSet([0, 5]), "Skipped": TlaSet([]), "Claimed": TlaSet([])})
         res = tlc.model_check(SPEC_DIR, "MCUsb2Ctl", cfg, workers=4, timeout=3000)
         rep.add_mc("MCUsb2Ctl, Env restricted to the clean class (Clean = TRUE)", res, {"Clean": True})
+        # the configuration parameters of the specification: a skiplist and a custom handler's claim
+        cfg = tlc.render_cfg(_cfg("MCUsb2Ctl.cfg.tmpl"), {"Clean": False, "View": "RefView", "SetupIdx": TlaSet(ALL_ROWS),
+                                                          "Addrs": TlaSet([0, 5]), "Skipped": TlaSet([0, 9]),
+                                                          "Claimed": TlaSet([2 * 256 + 5])})
+        res = tlc.model_check(SPEC_DIR, "MCUsb2Ctl", cfg, workers=4, timeout=3000, allow_uncovered=("ACommitCfg",))
+        rep.add_mc("MCUsb2Ctl, Skipped = {GET_STATUS, SET_CONFIGURATION}, Claimed = {vendor 5}", res,
+                   {"Skipped": [0, 9], "Claimed": [517]})
 
 
 def simulated_scripts(rep, prop, b, max0, num, depth):
     """Host behaviours generated by TLC from the spec (clean class), over the model's packet alphabet."""
     rows = sorted(set(MC_ROWS[prop] + [1, 2, 3, 4]))
     cfg = tlc.render_cfg(_cfg("MCUsb2Ctl_sim.cfg.tmpl"), {
-        "SetupIdx": TlaSet(rows), "Addrs": TlaSet([0, 5, 85]), "MaxPkt0": max0, "KnownDesc": TlaSet(sorted(b.known_desc))})
+        "SetupIdx": TlaSet(rows), "Addrs": TlaSet([0, 5, 85]), "MaxPkt0": max0, "KnownDesc": TlaSet(sorted(b.known_desc)),
+        "Skipped": TlaSet(list(b.skip)), "Claimed": TlaSet(list(b.claimed))})
     with _Phase(rep, "tlc-simulate"):
         behs = tlc.simulate(SPEC_DIR, "MCUsb2Ctl", cfg, num=num, depth=depth,
                             seed=rep.seed * 31 + sum(ord(c) for c in prop))
     return [script_from_behaviour(bh) for bh in behs]
+
+
+# DUT configurations (constructor parameters of USBControlEndpoint / StandardRequestHandler / the endpoints / USBDevice).
+# "A" is the default and always runs in full; the quick tier adds ONE of the others, rotated by seed and property (with the
+# default seed the five properties cover B..E between them); the thorough tier runs them all.
+CONFIGS = {
+    "A": dict(ep0_max=64),
+    "B": dict(ep0_max=8),
+    "C": dict(ep0_max=16, avoid_blockram=True, bulk_in_ep=3, bulk_out_ep=4, full_speed_only=0),
+    "D": dict(ep0_max=32, skip=(0,), skip_kw="skiplist", custom=True, stall_only=True),
+    "E": dict(ep0_max=64, skip=(8, 9), skip_kw="blacklist", bulk_in_ep=15, bulk_out_ep=1),
+    "F": dict(ep0_max=64, avoid_blockram=True),
+}
+PROPS = ["C06", "C07", "C08", "C10", "C20"]
+# which secondary configuration the quick tier adds for seed 1, 2, 3, 4 (mod 4): the one closest to the property first
+QUICK_ROTATION = {"C06": "CBDE", "C07": "BDEC", "C08": "ECBD", "C10": "DEBC", "C20": "CBED"}
+
+
+def remap_eps(script, in_ep, out_ep):
+    """Scripts are written for bulk IN = ep1, bulk OUT = ep2, ep3 = no such endpoint; move them to this DUT's numbers."""
+    if (in_ep, out_ep) == (1, 2):
+        return script
+    free = next(e for e in (3, 5, 6, 7) if e not in (in_ep, out_ep))
+    m = {1: in_ep, 2: out_ep, 3: free}
+    out = []
+    for a in script:
+        if a["a"] == "tok" and a["ep"] in m:
+            a = dict(a, ep=m[a["ep"]])
+        out.append(a)
+    return out
+
+
+def domain_reset_scripts(prop):
+    """The reset of the DUT's clock domain in the middle of a transfer / a transmission: afterwards the device is in its
+    power-on state (address 0, unconfigured, nothing in progress) and the next control transfers work."""
+    GS, GC, GD = S(0x80, 0, 0, 0, 2), S(0x80, 8, 0, 0, 1), S(0x80, 6, 0x100, 0, 18)
+    SA, SC = S(0, 5, 5, 0, 0), S(0, 9, 1, 0, 0)
+    pre = [tok("SETUP", 0, 0), dat("DATA0", SA), tok("IN", 0, 0), dict(ACK), tok("SETUP", 5, 0), dat("DATA0", SC),
+           tok("IN", 5, 0), dict(ACK)]
+    mids = {"idle": [], "after-setup": [tok("SETUP", 5, 0), dat("DATA0", GD)],
+            "in-data-stage": [tok("SETUP", 5, 0), dat("DATA0", GD), tok("IN", 5, 0)],
+            "status-pending": [tok("SETUP", 5, 0), dat("DATA0", S(0, 5, 9, 0, 0)), tok("IN", 5, 0)],
+            "after-setup-token": [tok("SETUP", 5, 0, wait=3)],
+            "bulk": [{"a": "src", "en": 1}, tok("IN", 5, 1)]}
+    out = []
+    for name, mid in mids.items():
+        for cyc in (1, 3):
+            out.append(("domain-reset %s x%d" % (name, cyc), pre + mid + [{"a": "dreset", "cycles": cyc}, tok("IN", 5, 3), tok("IN", 0, 0)]
+                        + sanity(0) + [tok("SETUP", 0, 0), dat("DATA0", GD), tok("IN", 0, 0), dict(ACK), tok("OUT", 0, 0), dat("DATA1", [])]))
+    return out
 
 
 def run_device(rep, prop, with_witness=True):
@@ -987,46 +1051,57 @@ def run_device(rep, prop, with_witness=True):
     quick = rep.tier == "quick"
     rng = rep.rng
     total_ok = 0
-    configs = [(64, False)] if quick and prop not in ("C07", "C20") else [(64, False), (8, False)]
-    if not quick:
-        configs.append((64, True))
-    for max0, avoid_bram in configs:
-        runner = usb2dev.DeviceRunner(rng, avoid_blockram=avoid_bram, ep0_max=max0)
+    if quick:
+        names = ["A", QUICK_ROTATION[prop][(rep.seed - 1) % 4]]
+    else:
+        names = list(CONFIGS)
+    rep.notes.append("DUT configurations elaborated: %s" % {n: CONFIGS[n] for n in names})
+    for cname in names:
+        conf = dict(CONFIGS[cname])
+        max0 = conf["ep0_max"]
+        main = cname == "A"
+        runner = usb2dev.DeviceRunner(rng, domain_reset=True, **conf)
         b = runner.b
+        fix = lambda sc, b=b: remap_eps(sc, b.bulk_in_ep, b.bulk_out_ep)
         desc_len = _desc_len(b)
         cfg = trace_cfg(b, max0)
-        label = "USBDevice(ep0 max %d%s)" % (max0, ", avoid_blockram" if avoid_bram else "")
+        label = "USBDevice(config %s: %s)" % (cname, ", ".join("%s=%s" % kv for kv in sorted(conf.items())))
         items = []
         stress = prop == "C20"
-        sims = simulated_scripts(rep, prop, b, max0, (20 if quick else 150) if max0 == 64 else (10 if quick else 50),
-                                 25 if quick else 40)
+        # (quick tier: TLC-simulated behaviours go to the default configuration only - one JVM less)
+        sims = [] if (quick and not main) else simulated_scripts(rep, prop, b, max0, (20 if quick else 150) if main else 40,
+                                                                 25 if quick else 40)
         with _Phase(rep, "pysim %s" % label):
             # (a) spec -> code
             for i, sc in enumerate(sims):
                 if not sc:
                     continue
-                tr = runner.run([{"a": "src", "en": 1}] + sc if i % 2 else sc,
+                tr = runner.run(fix([{"a": "src", "en": 1}] + sc if i % 2 else sc),
                                 gap_prob=0.2 if stress else 0.0, stall_prob=0.3 if stress and i % 3 else 0.0)
                 items.append((tr, {"dut": label, "origin": "tlc-simulate", "n": i}))
             # (b) code -> spec: structured random host behaviours beyond the model's alphabet
-            n_rand = (24 if quick else 200) if max0 == 64 else (12 if quick else 80)
+            n_rand = (24 if quick else 200) if main else (12 if quick else 60)
             for i in range(n_rand):
-                sc = gen_clean(rng, prop, desc_len, max0, rng.randint(2, 6))
-                tr = runner.run(sc, gap_prob=rng.choice([0.0, 0.0, 0.3]) if not stress else rng.choice([0.0, 0.3, 0.6]),
+                sc = gen_clean(rng, prop, desc_len, max0, rng.randint(2, 6), skip=b.skip, claimed=b.claimed)
+                tr = runner.run(fix(sc), gap_prob=rng.choice([0.0, 0.0, 0.3]) if not stress else rng.choice([0.0, 0.3, 0.6]),
                                 stall_prob=rng.choice([0.0, 0.0, 0.4]) if not stress else rng.choice([0.0, 0.4, 0.7]))
                 items.append((tr, {"dut": label, "origin": "random-clean", "n": i}))
             # (b') systematic alignment sweeps: every distance between bus events, every stall / gap position
-            if max0 == 64 or prop == "C07":
-                dist = (QUICK_DISTANCES if max0 == 64 else (2, 4, 9)) if quick else range(2, 25)
-                for name, sc in aligned_scripts(prop, desc_len, max0, dist):
-                    if max0 != 64 and ("stalls=" in name or " gap@" in name or " +foreign" in name or " +sof" in name):
-                        continue
-                    tr = runner.run(sc, gap_prob=0.0, stall_prob=0.0)
-                    items.append((tr, {"dut": label, "origin": "aligned", "case": name}))
+            dist = (QUICK_DISTANCES if main else (2, 5)) if quick else (range(2, 25) if main else (2, 3, 5, 9))
+            for name, sc in aligned_scripts(prop, desc_len, max0, dist):
+                if not main and ("stalls=" in name or " gap@" in name or " +foreign" in name or " +sof" in name
+                                 or name.startswith("trail-")):
+                    continue
+                tr = runner.run(fix(sc), gap_prob=0.0, stall_prob=0.0)
+                items.append((tr, {"dut": label, "origin": "aligned", "case": name}))
+            # (b3) the clock-domain reset in the middle of things
+            for name, sc in domain_reset_scripts(prop)[::1 if main or not quick else 3]:
+                tr = runner.run(fix(sc), gap_prob=0.0, stall_prob=0.0)
+                items.append((tr, {"dut": label, "origin": "domain-reset", "case": name}))
             # (c) witnesses of open findings of this property (and regression for repaired ones)
-            if with_witness and max0 == 64:
+            if with_witness and main:
                 for name, sc in witness_scripts(prop, desc_len):
-                    tr = runner.run(sc, gap_prob=0.0, stall_prob=0.0)
+                    tr = runner.run(fix(sc), gap_prob=0.0, stall_prob=0.0)
                     items.append((tr, {"dut": label, "origin": "witness", "witness": name}))
         total_ok += judge(rep, prop, items, cfg, label)
         if items:
@@ -1041,12 +1116,14 @@ def unit_decoder(rep, prop="C06"):
     from luna.gateware.usb.usb2 import USBSpeed
     quick = rep.tier == "quick"
     rng = rep.rng
-    for speed, name, min_gap, max_gap in ((USBSpeed.FULL, "FS", 10, 90), (USBSpeed.HIGH, "HS", 1, 102)):
-        runner = usb2dev.DecoderRunner(rng, speed)
-        cfg = trace_cfg(None, 64, unit=True, min_gap=min_gap, max_gap=max_gap)
+    items = []
+    for speed, name, min_gap, max_gap in ((USBSpeed.FULL, "FS", 10, 90), (USBSpeed.HIGH, "HS", 1, 102),
+                                          (USBSpeed.LOW, "LS", 80, 270)):
+        runner = usb2dev.DecoderRunner(rng, speed, window=(min_gap, max_gap))
+        light = quick and name == "LS"          # third speed class: sweeps and witnesses only in the quick tier
+        cfg = trace_cfg(None, 64, unit=True)
         label = "USBSetupDecoder(standalone, %s, 60 MHz)" % name
-        items = []
-        for i in range(12 if quick else 200):
+        for i in range((0 if light else 12) if quick else 200):
             g = Gen(rng, {}, 64, bulk=False)
             for _ in range(rng.randint(2, 6)):
                 s8 = [rng.randrange(256) for _ in range(8)]
@@ -1069,8 +1146,9 @@ def unit_decoder(rep, prop="C06"):
             if cname.startswith(("runt-", "trail-", "bad-crc", "back-to-back", "setup-data gap")):
                 tr = runner.run(sc)
                 items.append((tr, {"dut": label, "origin": "aligned", "case": cname}))
-        judge(rep, prop, items, cfg, label)
-        rep.sample({"dut": label, "first_records": _brief(items[0][0][:4])})
+        rep.sample({"dut": label, "first_records": _brief(items[-1][0][:4])})
+    # one TLC run for the three speeds: the response window travels with the records
+    judge(rep, prop, items, cfg, "USBSetupDecoder(standalone, FS/HS/LS, 60 MHz)")
 
 
 def _common(rep, prop):
